@@ -19,10 +19,11 @@ import (
 
 // Delivery is one coordinator/TM delivery of a phase for a branch.
 type Delivery struct {
-	Key   int  `json:"key"`           // branch index: xid = "xid-<key/2>", branch id = 100+key (keys 2k, 2k+1 share an xid)
-	Phase int  `json:"phase"`         // 1 prepare, 2 commit, 3 rollback
-	Fault int  `json:"fault"`         // -1 none, else index of the failing counted driver operation
-	Drv   bool `json:"drv,omitempty"` // through the seata-fence-mysql proxy driver instead of WithFence(callback)
+	Key   int  `json:"key"`            // branch index: xid = "xid-<key/2>", branch id = 100+key (keys 2k, 2k+1 share an xid)
+	Phase int  `json:"phase"`          // 1 prepare, 2 commit, 3 rollback
+	Fault int  `json:"fault"`          // -1 none, else index of the failing counted driver operation
+	FErr  int  `json:"ferr,omitempty"` // error kind if the failure hits a business statement: 0 generic, 1 MySQL 1205, 2 MySQL 1213, 3 driver.ErrBadConn
+	Drv   bool `json:"drv,omitempty"`  // through the seata-fence-mysql proxy driver instead of WithFence(callback)
 }
 
 // Obs is what one delivery did (projected: no SQL text, no messages, no times).
@@ -31,7 +32,8 @@ type Obs struct {
 	Err    int      `json:"err"`    // 0 none, 1 injected fault, 2 duplicate key, 3 refused by the fence, 4 lock wait timeout, 5 panic, 6 diverged, 7 other
 	Ran    int      `json:"ran"`    // executions of the business callback
 	Status int64    `json:"status"` // committed fence status of the key after the delivery (0 = no row)
-	Biz    [3]int64 `json:"biz"`    // committed try/confirm/cancel effect counters of the key after the delivery
+	Biz    [3]int64 `json:"biz"`    // committed try/confirm/cancel effect counters of the key after the delivery (first row)
+	Biz2   [3]int64 `json:"biz2"`   // the second row every business step updates in the same transaction
 	Detail string   `json:"detail,omitempty"`
 }
 
@@ -63,7 +65,7 @@ func classify(err error, sess *Session) (int, string) {
 	}
 	var me *mysql.MySQLError
 	switch {
-	case errors.Is(err, errInjected):
+	case errors.Is(err, errInjected), sess.Fired && sess.FaultedKind == OpBiz && sess.FaultErr != 0:
 		return 1, ""
 	case errors.As(err, &me) && me.Number == 1062:
 		return 2, ""
@@ -96,8 +98,15 @@ func deliver(sess *Session, phase int, key int) (errc int, detail string) {
 		return classify(err, sess)
 	}
 	err = fence.WithFence(ctx, tx, func() error {
+		// the business step: two rows that must move together (sequential deliveries; in a race one statement)
 		sess.Ran++
-		_, e := tx.Exec("update biz set n = n + 1 where xid = ? and branch_id = ? and kind = ?", xid, branch, phase)
+		if _, e := tx.Exec("update biz set n = n + 1 where xid = ? and branch_id = ? and kind = ?", xid, branch, phase); e != nil {
+			return e
+		}
+		if sess.Gate != nil {
+			return nil
+		}
+		_, e := tx.Exec("update biz set n = n + 1 where xid = ? and branch_id = ? and kind = ?", xid, branch, phase+10)
 		return e
 	})
 	if err != nil {
@@ -147,9 +156,11 @@ func deliverDrv(sess *Session, phase int, key int) (errc int, detail string) {
 		return classify(err, sess)
 	}
 	sess.Ran++
-	if _, err = tx.Exec("update biz set n = n + 1 where xid = ? and branch_id = ? and kind = ?", xid, branch, phase); err != nil {
-		_ = tx.Rollback()
-		return classify(err, sess)
+	for _, kind := range []int{phase, phase + 10} {
+		if _, err = tx.Exec("update biz set n = n + 1 where xid = ? and branch_id = ? and kind = ?", xid, branch, kind); err != nil {
+			_ = tx.Rollback()
+			return classify(err, sess)
+		}
 	}
 	if err = tx.Commit(); err != nil {
 		return classify(err, sess)
@@ -186,7 +197,7 @@ func runSeq(st *Store, sid *int, hist []Delivery, pred *string) []Obs {
 	var out []Obs
 	for _, d := range hist {
 		*sid++
-		sess := &Session{ID: *sid, Store: st, Fault: d.Fault, FaultedKind: -1}
+		sess := &Session{ID: *sid, Store: st, Fault: d.Fault, FaultErr: d.FErr, FaultedKind: -1}
 		xid, b := keyName(d.Key)
 		decided := d.Drv && drvDecided(st.Status(xid, b), d.Phase)
 		ec, det := guarded(sess, d.Phase, d.Key, d.Drv)
@@ -208,7 +219,7 @@ func runSeq(st *Store, sid *int, hist []Delivery, pred *string) []Obs {
 		if sess.Misuse != "" && det == "" {
 			det = sess.Misuse
 		}
-		out = append(out, Obs{Ops: sess.Trace, Err: ec, Ran: sess.Ran, Status: st.Status(xid, b), Biz: st.Biz(xid, b), Detail: det})
+		out = append(out, Obs{Ops: sess.Trace, Err: ec, Ran: sess.Ran, Status: st.Status(xid, b), Biz: st.Biz(xid, b), Biz2: st.Biz2(xid, b), Detail: det})
 	}
 	return out
 }
@@ -324,7 +335,8 @@ func runRace(st *Store, sid *int, key int, r *Race) ([]Obs, string) {
 		if sess[t].Misuse != "" && det == "" {
 			det = sess[t].Misuse
 		}
-		out = append(out, Obs{Ops: sess[t].Trace, Err: res[t].ec, Ran: sess[t].Ran, Status: st.Status(xid, b), Biz: st.Biz(xid, b), Detail: det})
+		// (in a race the business step is its first statement only: the second row is reported as the first)
+		out = append(out, Obs{Ops: sess[t].Trace, Err: res[t].ec, Ran: sess[t].Ran, Status: st.Status(xid, b), Biz: st.Biz(xid, b), Biz2: st.Biz(xid, b), Detail: det})
 	}
 	return out, ""
 }
@@ -371,6 +383,9 @@ func oracleStep(ks *keyState, phases []int, errs []int, rans []int, after Obs, f
 		if after.Biz[i] < before.biz[i] {
 			return "a committed business effect disappeared"
 		}
+	}
+	if after.Biz2 != after.Biz {
+		return fmt.Sprintf("the committed business effect is not exactly one application of the business step: first row %v, second row %v (a part of it was applied twice or not at all)", after.Biz, after.Biz2)
 	}
 	if after.Biz[1] >= 1 && after.Biz[2] >= 1 {
 		return "confirm and cancel both applied"
